@@ -13,7 +13,7 @@ def work(k):
     while True:
         try: d = q.get_nowait()
         except queue.Empty: return
-        r = subprocess.run(['python3', '/verif/tools/try_mutant.py', d, '--full'] + extra, env=dict(os.environ, VERIF_WT='/tmp/wt-%d' % k, VERIF_JOBS='6'),
+        r = subprocess.run(['python3', '/verif/tools/try_mutant.py', d, '--full'] + extra, env=dict(os.environ, VERIF_WT='/tmp/wt-%d' % (k + int(os.environ.get('TRY_BASE', '0'))), VERIF_JOBS='6'),
                            stdout=subprocess.PIPE, stderr=subprocess.STDOUT, text=True)
         with lock:
             print('##', d); print(r.stdout.rstrip()); sys.stdout.flush()
